@@ -28,7 +28,7 @@ func (w *cluWorld) execLambda(ctx context.Context, op cluOp) (out opOutcome) {
 		opts.Count = 1
 		opts.DeployStrategy = "AUTO"
 	}
-	w.apps[op.App+"/"+op.Entry] = true
+	w.setFlag(w.apps, op.App+"/"+op.Entry, true)
 	in := make(chan []byte)
 	close(in)
 	errFired0 := w.sim.Stats.ErrFired
@@ -118,7 +118,7 @@ func (w *cluWorld) checkLambdaClean(out opOutcome, post *cluState) {
 // runConcOp: an operation inside a concurrent history; only per-op facts are
 // recorded, the state oracles run at quiescence.
 func (w *cluWorld) runConcOp(ctx context.Context, op cluOp, idx int) {
-	defer func() { w.concDone++ }()
+	defer func() { w.hmu.Lock(); w.concDone++; w.hmu.Unlock() }()
 	pre := &cluState{Workloads: map[string]*coretypes.Workload{}}
 	if op.Kind == "replace" {
 		pre = w.readState()
@@ -141,7 +141,9 @@ func (w *cluWorld) runConcOp(ctx context.Context, op cluOp, idx int) {
 	case "create":
 		rec.OK = len(out.okIDs) > 0
 	}
+	w.hmu.Lock()
 	w.concLog = append(w.concLog, rec)
+	w.hmu.Unlock()
 	if out.err != nil && strings.Contains(out.err.Error(), "context deadline exceeded") {
 		w.probe("conc_op_timed_out")
 		if w.sim.Stats.ErrFired == 0 && len(w.sim.Plan.ErrAt) == 0 {
